@@ -5,6 +5,7 @@ CLAIM = ('Two real CCoinsViewCache layers (coins.cpp, libstdc++ unordered_map, f
          'enumerated operation sequence (AddCoin with/without overwrite, SpendCoin, GetCoin/HaveCoin/AccessCoin/PeekCoin, Uncache, Flush, Sync on child and parent) and every base '
          'population shape, with all coin contents symbolic, each layer answers exactly like its map model after every step, SpendCoin returns the spent coin, Flush/Sync '
          'propagate the child view to the parent and the parent view to the base, and the caches\' own SanityCheck()/Assume() invariants hold.')
+CLAIM += (' Two sequences carry a 40-byte (heap-allocated) script so that the memory-usage accounting (cachedCoinsUsage against SanityCheck\'s recomputation) is non-trivial when a coin is added, spent through SpendCoin(&moved) and flushed.')
 LINK = ['coins.cpp', 'primitives/transaction.cpp', 'script/script.cpp', 'uint256.cpp', 'hash.cpp']
 OPS = dict(ADD=1, ADDOW=2, SPEND=3, GET=4, FLUSH=5, SYNC=6, PFLUSH=7, UNCACHE=8, PADD=9, PSPEND=10, ACCESS=11, PSYNC=12, ADDS=13, ADDOWS=14)
 def seq(present, *ops):
@@ -26,7 +27,7 @@ QUICK = [
     seq(1, 'ADDOWS:0', 'SPEND:0', 'FLUSH', 'PFLUSH'),
 ]
 HARNESSES = [
-    H('layers', 'layers.cpp', 'h_layers', link=LINK, entries=QUICK, shadow=['nofmt', 'nopool'], unwind=20, memunwind=112, timeout=600, objbits=11,
+    H('layers', 'layers.cpp', 'h_layers', link=LINK, entries=QUICK, shadow=['nofmt', 'nopool'], unwind=48, memunwind=112, timeout=600, objbits=11,
       functions=['CCoinsViewCache::FetchCoin/GetCoin/PeekCoin/HaveCoin/AccessCoin/AddCoin/SpendCoin/Uncache/BatchWrite/Flush/Sync/SanityCheck (coins.cpp)', 'CCoinsCacheEntry flag list (coins.h)', 'CoinsViewCacheCursor (coins.h)',
                  'std::unordered_map<COutPoint, CCoinsCacheEntry, SaltedCoinsCacheHasher> (libstdc++ headers; real SipHash-1-3 on concrete keys)'],
       stubs=['PoolAllocator forwards to operator new (ref/nopool shadow of support/allocators/pool.h; PoolResource is C61)', 'tinyformat -> empty strings', 'FastRandomContext/ChaCha20 nondeterministic (unused: deterministic hasher keys)',
